@@ -27,7 +27,7 @@ ELEMENTWISE = {"add", "sub", "mul", "div", "add_mut", "sub_mut", "mul_mut", "div
 
 FLOAT_OPS = {"column_mean", "mean", "var", "std", "cov", "div", "div_mut", "div_scalar", "div_scalar_mut", "scale_mut",
              "softmax_mut", "v_mean", "v_var", "v_std", "v_div", "v_div_mut", "v_div_scalar", "v_div_scalar_mut",
-             "norm_half", "v_norm_half"}
+             "norm_half", "v_norm_half", "norm_neg", "v_norm_neg"}
 
 
 def shape(X):
